@@ -1078,6 +1078,7 @@ func (c *Conn) handleBdat(arg string) {
 				r.CloseWithError(ErrDataReset)
 				return
 			}
+			verifPoint("bdat-deliver")
 
 			var err error
 			if !c.server.LMTP {
